@@ -114,3 +114,24 @@ def shard(ctx):
                 rep.sample({"version": version, "events": len(store), "merge_of": m, "conflicted_keys": len(conflicted),
                             "runs": o["runs"], "distinct_fetch_traces": o["distinct_fetch_traces"], "distinct_results": len(o["results"])})
                 sampled = True
+
+
+def post(rep, tier, seed):
+    """thorough: small rooms resolved on 2 threads under Miri with several scheduler seeds (data
+    race detector + per-seed hash keys)."""
+    if tier != "thorough":
+        return {"miri": "thorough tier only"}
+    import random
+    from .. import miri
+    rng = random.Random(seed)
+    cmds = []
+    for i in range(32):
+        h = rooms.generate(rng, rng.choice([6, 9, 11]), rng.randint(4, 9), tie_bias=0.8)
+        nodes = h.order[4:]
+        m = rng.sample(nodes, 2)
+        sets, chains = h.merge_input(m)
+        cmds.append({"op": "resolve_many", "version": str(h.v), "store": list(h.store.values()),
+                     "state_sets": [set_spec(s) for s in sets], "auth_chains": chains, "reps": 2, "threads": 2,
+                     "permute": True, "seed": i})
+    info = miri.layer(rep, cmds, seed=seed, compare_native=False)
+    return {"miri": info}
